@@ -23,6 +23,14 @@ pub struct P {
 
 const NM: usize = 3;
 const NR: usize = 3;
+const NF: usize = 3;
+
+/// Data that lives OUTSIDE its lock: the lock is a zero-sized token (`Mutex<()>`, the forks of
+/// the dining philosophers) and the program relies on it for exclusion.
+#[derive(Default)]
+struct Outside(std::cell::UnsafeCell<P>);
+// safety (of the workload, as a user would argue it): only touched while the token lock is held
+unsafe impl Sync for Outside {}
 
 struct Shared {
 	m: [Mutex<P>; NM],
@@ -32,8 +40,11 @@ struct Shared {
 	owned_r: OwnedLockCollection<(RwLock<P>, RwLock<P>)>,
 	boxed: BoxedLockCollection<Vec<RwLock<P>>>,
 	retry: RetryingLockCollection<[Mutex<P>; 2]>,
+	/// zero-sized token locks and the data they guard by convention
+	forks: [Mutex<()>; NF],
+	fork_data: [Outside; NF],
 	/// expected number of increments per payload slot (Relaxed counters)
-	want: [AtomicU64; 16],
+	want: [AtomicU64; 20],
 	/// threads currently inside a shared section of r[i] (overlap statistics only)
 	readers: [AtomicUsize; NR],
 	max_readers: AtomicUsize,
@@ -85,13 +96,13 @@ fn rd(s: &Shared, p: &P, ridx: Option<usize>, r: &mut Rng) {
 	s.sections.fetch_add(1, Relaxed);
 }
 
-// payload slots: m[i] -> i, r[i] -> 3+i, pm -> 6, owned.0 -> 7, owned.1 -> 8, boxed[k] -> 9+k (2), retry[k] -> 11+k (2), owned_r -> 13, 14
+// payload slots: fork_data[i] -> 15+i; m[i] -> i, r[i] -> 3+i, pm -> 6, owned.0 -> 7, owned.1 -> 8, boxed[k] -> 9+k (2), retry[k] -> 11+k (2), owned_r -> 13, 14
 
 fn worker(s: &Shared, t: usize, seed: u64, ops: u32) {
 	let mut r = Rng::new(seed);
 	let mut key = ThreadKey::get().expect("fresh thread owns its key");
 	for _ in 0..ops {
-		let op = r.below(18);
+		let op = r.below(20);
 		// peek at the operands the op is going to draw (same generator state)
 		let mut peek = r.clone();
 		let a = peek.below(3);
@@ -271,6 +282,46 @@ fn worker(s: &Shared, t: usize, seed: u64, ops: u32) {
 					key = RetryingLockCollection::<[&RwLock<P>; 3]>::unlock(g);
 				}
 			}
+			18 => {
+				// token lock, guard API (blocking or try)
+				let i = r.below(NF as u32) as usize;
+				if r.chance(1, 2) {
+					let g = s.forks[i].lock(key);
+					// safety: the token is held
+					wr(s, unsafe { &mut *s.fork_data[i].0.get() }, 15 + i, &mut r);
+					key = Mutex::unlock(g);
+				} else {
+					match s.forks[i].try_lock(key) {
+						Ok(g) => {
+							wr(s, unsafe { &mut *s.fork_data[i].0.get() }, 15 + i, &mut r);
+							key = Mutex::unlock(g);
+						}
+						Err(k) => {
+							s.try_failures.fetch_add(1, Relaxed);
+							key = k;
+						}
+					}
+				}
+			}
+			19 => {
+				// two tokens through a collection (a philosopher picking up both forks), scoped
+				let i = r.below(NF as u32) as usize;
+				let j = (i + 1 + r.below(NF as u32 - 1) as usize) % NF;
+				let c = RetryingLockCollection::try_new([&s.forks[i], &s.forks[j]]).unwrap();
+				if r.chance(1, 2) {
+					c.scoped_lock(&mut key, |_| {
+						let mut r2 = Rng::new(seed ^ 0xCC);
+						wr(s, unsafe { &mut *s.fork_data[i].0.get() }, 15 + i, &mut r2);
+						wr(s, unsafe { &mut *s.fork_data[j].0.get() }, 15 + j, &mut r2);
+					});
+				} else {
+					let c = BoxedLockCollection::try_new([&s.forks[j], &s.forks[i]]).unwrap();
+					let g = c.lock(key);
+					wr(s, unsafe { &mut *s.fork_data[i].0.get() }, 15 + i, &mut r);
+					wr(s, unsafe { &mut *s.fork_data[j].0.get() }, 15 + j, &mut r);
+					key = BoxedLockCollection::<[&Mutex<()>; 2]>::unlock(g);
+				}
+			}
 			12 => {
 				let mut g = match s.pm.lock(key) {
 					Ok(g) => g,
@@ -303,6 +354,8 @@ fn episode(seed: u64, threads: u32, ops: u32) -> (Vec<String>, u64, u64, u64) {
 		owned_r: OwnedLockCollection::new((RwLock::new(P::default()), RwLock::new(P::default()))),
 		boxed: BoxedLockCollection::new(vec![RwLock::new(P::default()), RwLock::new(P::default())]),
 		retry: RetryingLockCollection::new([Mutex::new(P::default()), Mutex::new(P::default())]),
+		forks: Default::default(),
+		fork_data: Default::default(),
 		want: Default::default(),
 		readers: Default::default(),
 		max_readers: AtomicUsize::new(0),
@@ -371,9 +424,12 @@ fn episode(seed: u64, threads: u32, ops: u32) -> (Vec<String>, u64, u64, u64) {
 	let maxr = s.max_readers.load(Relaxed) as u64;
 	// conservation through into_inner
 	let Shared {
-		m, r, pm, owned, owned_r, boxed, retry, ..
+		m, r, pm, owned, owned_r, boxed, retry, fork_data, ..
 	} = s;
 	let mut got: Vec<(usize, P)> = Vec::new();
+	for (i, x) in fork_data.into_iter().enumerate() {
+		got.push((15 + i, x.0.into_inner()));
+	}
 	for (i, x) in m.into_iter().enumerate() {
 		got.push((i, x.into_inner()));
 	}
@@ -459,7 +515,7 @@ pub fn run(cfg: &RunCfg) -> Report {
 			});
 		}
 	}
-	rep.rule = "free-running threads on the production parking_lot-backed locks: single Mutex/RwLock (guard, try, scoped), boxed/ref/retrying collections of references listed in opposite orders, owned/boxed/retrying collections owning their locks, nested, Poisonable; plain non-atomic payloads bumped in two steps with yields/spins inside the section; oracles: a == b on entry of every section, conservation of increments through into_inner; under Miri/TSan any data-race or aliasing report is a violation; an episode is non-trivial when >= 2 threads ran (contention statistics in counters)".into();
+	rep.rule = "free-running threads on the production parking_lot-backed locks: single Mutex/RwLock (guard, try, scoped), boxed/ref/retrying collections of references listed in opposite orders, owned/boxed/retrying collections owning their locks, nested, Poisonable, and zero-sized token locks (Mutex<()>) guarding data that lives outside them - directly and through retrying / boxed collections of two tokens; plain non-atomic payloads bumped in two steps with yields/spins inside the section; oracles: a == b on entry of every section, conservation of increments through into_inner; under Miri/TSan any data-race or aliasing report is a violation; an episode is non-trivial when >= 2 threads ran (contention statistics in counters)".into();
 	rep
 }
 
